@@ -89,6 +89,22 @@ CLAIMED = {
         'Structural necessary conditions of the fault-injection property, '
         'checked on all paths rather than on sampled crash points.',
         'DESIGN.md section 5, C14'),
+    'C15': (
+        'record-key and HDF5 dataset schema extraction, field-map '
+        'inversion through symbolic expansion, constant relations, '
+        'dominance',
+        'Decides: every per-level record key consumed by the dataframe / '
+        'CSV / HDF5 writers is produced upstream; every dataset the HDF5 '
+        'reader needs is written; reader and writer relate dataset and '
+        'record key by mutually inverse maps; the padding constant '
+        'satisfies the reader\'s stop test and index 0 does not; runner-up '
+        'fields are restored only for directly assigned levels; the three '
+        'runner-up lists share one filter; n_assignments is config '
+        'n_runners_up + 1; CSV rows come after comment lines with '
+        'metadata name, hierarchy and version, with four decimals and the '
+        'documented confidence key. CSV quoting, name-table translation '
+        'and float round-trip equality are not decided.',
+        'DESIGN.md section 5, C15'),
     'C17': (
         'value provenance on symbolic terms (versions of the rebound tree '
         'variable), dominance guard with sibling cross-check',
